@@ -410,31 +410,37 @@ func (e *Executor) startExecution(ctx context.Context, t *ast.Task, execute func
 		return execute(ctx)
 	}
 
+	// The innermost deduplicated execution in progress on this call chain. While
+	// this call lasts, that execution depends on the execution of h, whether we
+	// run h ourselves or wait for someone else to finish it.
+	waiter, _ := ctx.Value(executionContextKey{}).(string)
+
 	e.executionHashesMutex.Lock()
 
-	if otherExecution, ok := e.executionHashes[h]; ok {
-		// If we are (transitively) called by the execution we would wait
-		// for, or by one that is itself waiting for us, waiting would never
-		// end: the deduplicated tasks reference each other in a cycle.
-		waiter, _ := ctx.Value(executionContextKey{}).(string)
-		if waiter != "" {
-			if !otherExecution.finished && (waiter == h || e.executionWaitsFor(h, waiter, map[string]bool{})) {
-				e.executionHashesMutex.Unlock()
-				return &errors.TaskCalledTooManyTimesError{
-					TaskName:        t.Task,
-					MaximumTaskCall: MaximumTaskCall,
-				}
-			}
-			e.executionWaits[waiter] = append(e.executionWaits[waiter], h)
-			defer func() {
-				e.executionHashesMutex.Lock()
-				waits := e.executionWaits[waiter]
-				if i := slices.Index(waits, h); i >= 0 {
-					e.executionWaits[waiter] = slices.Delete(waits, i, i+1)
-				}
-				e.executionHashesMutex.Unlock()
-			}()
+	otherExecution, ok := e.executionHashes[h]
+	if ok && waiter != "" && !otherExecution.finished && (waiter == h || e.executionWaitsFor(h, waiter, map[string]bool{})) {
+		// We are (transitively) called by the execution we would wait for, or
+		// by one that itself depends on us: waiting would never end, the
+		// deduplicated tasks reference each other in a cycle.
+		e.executionHashesMutex.Unlock()
+		return &errors.TaskCalledTooManyTimesError{
+			TaskName:        t.Task,
+			MaximumTaskCall: MaximumTaskCall,
 		}
+	}
+	if waiter != "" {
+		e.executionWaits[waiter] = append(e.executionWaits[waiter], h)
+		defer func() {
+			e.executionHashesMutex.Lock()
+			waits := e.executionWaits[waiter]
+			if i := slices.Index(waits, h); i >= 0 {
+				e.executionWaits[waiter] = slices.Delete(waits, i, i+1)
+			}
+			e.executionHashesMutex.Unlock()
+		}()
+	}
+
+	if ok {
 		e.executionHashesMutex.Unlock()
 		e.Logger.VerboseErrf(logger.Magenta, "task: skipping execution of task: %s\n", h)
 
@@ -472,9 +478,9 @@ func (e *Executor) startExecution(ctx context.Context, t *ast.Task, execute func
 // deduplicated execution in progress on a call chain is recorded.
 type executionContextKey struct{}
 
-// executionWaitsFor reports whether the deduplicated execution "from" is
-// waiting, directly or through other executions, for the execution "to". The
-// caller must hold executionHashesMutex.
+// executionWaitsFor reports whether the deduplicated execution "from" depends,
+// directly or through other executions, on the completion of the execution
+// "to". The caller must hold executionHashesMutex.
 func (e *Executor) executionWaitsFor(from, to string, visited map[string]bool) bool {
 	if visited[from] {
 		return false
